@@ -886,10 +886,7 @@ theorem textObject_inRange_words (isSpace sp : Char → Bool) (d : Doc) (h : Inv
       · unfold findNextWordBeginning at hf
         simp only [] at hf
         obtain ⟨m, hn, hm⟩ := Option.map_eq_some_iff.1 hf
-        have hmem : m ∈ runs (cls sp big) d.after := by
-          split at hn
-          · simp at hn
-          · exact nth_mem _ _ _ hn
+        have hmem : m ∈ runs (cls sp big) d.after := nth_mem _ _ _ hn
         have := runs_bound _ _ m hmem
         apply inRange_of_start d h <;> omega
       · apply inRange_of_start d h <;> omega
